@@ -634,6 +634,36 @@ impl IggyConsumer {
                         .messages
                         .retain(|message| message.offset > consumed_offset);
                     if polled_messages.messages.is_empty() {
+                        // Everything the server returned has been consumed already, so the offset
+                        // stored on the server lags behind (e.g. it is stored every n-th message
+                        // only): store the consumed one, otherwise the next poll returns the same
+                        // messages again and the consumer never advances.
+                        if auto_commit_enabled && !auto_commit_after_polling {
+                            let stored_offset = last_stored_offset
+                                .get(&partition_id)
+                                .map_or(0, |entry| entry.load(ORDERING));
+                            if stored_offset < consumed_offset {
+                                trace!("Auto-committing the offset: {consumed_offset} in partition ID: {partition_id}, topic: {topic_id}, stream: {stream_id}, consumer: {consumer}");
+                                client
+                                    .read()
+                                    .await
+                                    .store_consumer_offset(
+                                        &consumer,
+                                        &stream_id,
+                                        &topic_id,
+                                        Some(partition_id),
+                                        consumed_offset,
+                                    )
+                                    .await?;
+                                if let Some(entry) = last_stored_offset.get(&partition_id) {
+                                    entry.store(consumed_offset, ORDERING);
+                                } else {
+                                    last_stored_offset
+                                        .insert(partition_id, AtomicU64::new(consumed_offset));
+                                }
+                            }
+                        }
+
                         return Ok(PolledMessages {
                             messages: EMPTY_MESSAGES,
                             current_offset: polled_messages.current_offset,
